@@ -15,7 +15,7 @@ Inductive bfn :=
 | B_Int_eq | B_Int_neq | B_Int_neg | B_Int_B | B_Int_iter | B_Int_new | B_Int_bear | B_Int_incBy | B_Int_at
 | B_Str_add | B_Str_mul | B_Str_eq | B_Str_cmp | B_Str_B | B_Str_len | B_Str_at | B_Str_iter | B_Str_new
 | B_Arr_add | B_Arr_mul | B_Arr_eq | B_Arr_B | B_Arr_len | B_Arr_at | B_Arr_iter | B_Arr_new | B_Arr_call
-| B_Arr_has | B_Arr_join | B_Arr_O | B_Arr_M
+| B_Arr_has | B_Arr_join | B_Arr_O | B_Arr_M | B_Arr_bear | B_Float_B
 | B_Map_eq | B_Map_B | B_Map_len | B_Map_at | B_Map_iter | B_Map_keys | B_Map_values | B_Map_items
 | B_Range_eq | B_Range_B | B_Range_iter | B_Range_new | B_Range_start | B_Range_stop | B_Range_step
 | B_Nil_eq | B_Nil_B | B_Nil_new | B_Nil_add | B_Nil_sub | B_Nil_mul
@@ -45,7 +45,7 @@ Definition bfn_table : list (string * bfn) :=
    ("Arr#+", B_Arr_add); ("Arr#*", B_Arr_mul); ("Arr#==", B_Arr_eq); ("Arr#B", B_Arr_B);
    ("Arr#len", B_Arr_len); ("Arr#at", B_Arr_at); ("Arr#_iter", B_Arr_iter); ("Arr#new", B_Arr_new);
    ("Arr#call", B_Arr_call); ("Arr#has?", B_Arr_has); ("Arr#join", B_Arr_join); ("Arr#O", B_Arr_O);
-   ("Arr#M", B_Arr_M);
+   ("Arr#M", B_Arr_M); ("Arr#bear", B_Arr_bear); ("Float#B", B_Float_B);
    ("Map#==", B_Map_eq); ("Map#B", B_Map_B); ("Map#len", B_Map_len); ("Map#at", B_Map_at);
    ("Map#_iter", B_Map_iter); ("Map#keys", B_Map_keys); ("Map#values", B_Map_values); ("Map#items", B_Map_items);
    ("Range#==", B_Range_eq); ("Range#B", B_Range_B); ("Range#_iter", B_Range_iter); ("Range#new", B_Range_new);
